@@ -136,6 +136,9 @@ class Taint:
                 return ("return", par, None)
             if pk == "assign":
                 return ("assign", par, None)
+            if pk == "mcall" and key == "args" and SETTER_FIELD.get(par["m"]):
+                # an argument of a State setter: stored in the one field that the setter changes (folded, see _setter_fields)
+                return ("field", {"p": "State"}, SETTER_FIELD[par["m"]])
             if pk == "macro" and par.get("name", "").endswith("format_args"):
                 return ("format", par, None)
             cur = par
@@ -162,12 +165,45 @@ class Taint:
         return self.sink_of(construct)
 
 
+SETTER_FIELD = {}
+
+
+def _setter_fields(syn):
+    """State methods `fn m(&self, v) -> State` that change exactly one field to their argument: {method: field} (rules/smalleval.py)"""
+    from .smalleval import SmallEval, NoEval
+    st = syn.structs.get("generate::convert::state::State")
+    if not st:
+        return {}
+    fields = [n for n, _ in st["fields"]]
+    methods = {f["name"]: f for f in syn.fns if f["mod"] == "generate::convert::state" and (f.get("impl_of") or "").strip() == "State" and f.get("body") and not f.get("impl_trait")}
+    out = {}
+    for name, f in methods.items():
+        ins = f["sig"]["inputs"]
+        if len(ins) != 2 or ins[0].get("pat", {}).get("name") != "self" or f["sig"].get("ret") not in ("State", "Self"):
+            continue
+        ev = SmallEval()
+        ev.local_methods = methods
+        self_v = {"__struct__": "State"}
+        self_v.update({n: ("sym", "old." + n) for n in fields})
+        try:
+            r = ev.call(f, [dict(self_v), ("sym", "arg")])
+        except NoEval:
+            continue
+        if isinstance(r, dict):
+            changed = [n for n in fields if r.get(n) != self_v[n]]
+            if len(changed) == 1 and r.get(changed[0]) == ("sym", "arg"):
+                out[name] = changed[0]
+    return out
+
+
 def fn_loc(facts, fn):
     return facts.loc_of(fn)
 
 
 def run(chk, facts):
     syn, mir = facts.syn, facts.mir
+    SETTER_FIELD.clear()
+    SETTER_FIELD.update(_setter_fields(syn))
     chk.rule("R-C11-1", "values derived from an `annotate` field reach only `ty` fields of Core nodes / other `annotate` fields; "
                         "no `?`, return, panic, convert_* or import registration other than type rendering under its control")
     chk.rule("R-C11-2", "only generate:: and the argument plumbing of the crate root read an `annotate` field (MIR field projections)")
@@ -258,6 +294,26 @@ def run(chk, facts):
     chk.floor("R-C11-1", n_src, 2, "generate:: functions that read annotate")
 
     # ---------------- R-C11-3 (consumers of Core.ty) ----------------
+    # .. and no pattern *discriminates* on the annotation: wherever one of the carriers is matched in generate::, its `ty` field is bound
+    # as a whole (`ty`, `_`, `..`), never matched against `Some(..)` / `None` - a pattern decides which arm runs, so the presence of an
+    # annotation would choose the statement that is emitted (`x: int` binds nothing, `x: int = None` does)
+    n_pat = 0
+    for fn in gen_fns:
+        for n in walk(fn["body"]):
+            if n.get("k") == "pstruct" and n["p"] in TY_CARRIERS:
+                for name, p in n["fields"]:
+                    if name != "ty":
+                        continue
+                    n_pat += 1
+                    inner = p
+                    while inner.get("k") in ("pref", "ptype"):
+                        inner = inner["p"]
+                    okp = inner.get("k") in ("pident", "pwild") and not inner.get("sub")
+                    chk.ob("R-C11-3", f"{fn['qual']}|pattern:{n['p']}.ty|{n_pat}", okp,
+                           f"in {fn['qual']}: `{n['p']}` is matched with its annotation bound as a whole" if okp else
+                           f"in {fn['qual']}: a pattern of `{n['p']}` tests the annotation itself (`ty: {src(p)[:40]}`): whether a type was rendered - which the annotate flag decides - "
+                           "selects the arm, i.e. the code that is emitted", fn_loc(facts, fn))
+    chk.floor("R-C11-3", n_pat, 4, "patterns over annotation carriers")
     n_cons = 0
     for fn in gen_fns:
         seeds = []
